@@ -361,11 +361,13 @@ def det3(R):
             + R[0, 2] * (R[1, 0] * R[2, 1] - R[1, 1] * R[2, 0]))
 
 
-def explore(fn, max_paths=16):
+def explore(fn, max_paths=16, initial=None):
     """run fn() once per feasible decision vector; fn returns a list of goals (name, negated_goal[, kind]).
-    Returns list of dicts {decisions, cons, oblig, goals}.  Raises PathBound when the bound is exhausted (an unwinding failure, not a pass)."""
+    Returns list of dicts {decisions, cons, oblig, goals}.  Raises PathBound when the bound is exhausted (an unwinding failure, not a pass).
+    initial = a forced prefix of branch decisions: only paths below it are explored, its conditions join the path condition without a
+    feasibility query (the 'path-feasible' vacuity query of discharge() still has to come back sat)."""
     results = []
-    stack = [[]]
+    stack = [list(initial or [])]
     seen = 0
     while stack:
         dec = stack.pop()
